@@ -51,7 +51,7 @@ P = {
 def unit(name, cname, file, meth, match, sig, contract, harness, uses=(), rules=''):
     return HEAD % dict(name=name, cname=cname, file=file, meth=meth, match=('match "%s"' % match) if match else '', sig=sig,
                        contract=contract, harness=harness, rules=rules,
-                       replace=' '.join({'skip': 'IMS_skip', 'can_read': 'IMS_can_read', 'read_obj': 'IMS_read_obj', 'pointer': 'IMS_pointer', 'memcpy': 'tins_memcpy',
+                       replace=' '.join({'skip': 'IMS_skip', 'can_read': 'IMS_can_read', 'read_obj': 'IMS_read_obj', 'pointer': 'IMS_pointer', 'memcpy': 'tins_memcpy2',
                                          'read_u8': 'IMS_read_uint8_t', 'read_u16': 'IMS_read_uint16_t', 'read_u32': 'IMS_read_uint32_t', 'read_u64': 'IMS_read_uint64_t'}[u] for u in uses),
                        protos='\n'.join(P[u] for u in uses if u in P),
                        anchor='InputMemoryStream::%s (%s)' % (meth, file))
@@ -68,10 +68,10 @@ def generate(outdir, tier):
                                    'IMS* s; size_t n; IMS_can_read(s, n);', rules='mutant: size_ >= byte_count ==> size_ + 1 >= byte_count')))
     U.append(('ims_read_obj', unit('ims_read_obj', 'IMS_read_obj', H, 'read', 'void read(T& value)', 'void IMS_read_obj(IMS* this, void* output, size_t n)', 'IMS_READ_OBJ_CONTRACT',
                                    'IMS* s; void* o; size_t n; IMS_read_obj(s, o, n);', uses=('can_read', 'skip', 'memcpy'),
-                                   rules='rule: sizeof\\(value\\) ==> n\nrule: read_value\\(this->buffer_, value\\) ==> tins_memcpy(output, this->buffer_, n) /* read_value = std::memcpy(&value, buffer, sizeof(value)) */')))
+                                   rules='rule: sizeof\\(value\\) ==> n\nrule: read_value\\(this->buffer_, value\\) ==> tins_memcpy2(output, this->buffer_, n) /* read_value = std::memcpy(&value, buffer, sizeof(value)) */')))
     U.append(('ims_read_buf', unit('ims_read_buf', 'IMS_read_buf', H, 'read', 'void* output_buffer, size_t output_buffer_size', 'void IMS_read_buf(IMS* this, void* output, size_t n)', 'IMS_READ_OBJ_CONTRACT',
                                    'IMS* s; void* o; size_t n; IMS_read_buf(s, o, n);', uses=('can_read', 'skip', 'memcpy'),
-                                   rules='rule: output_buffer_size ==> n\nrule: read_data\\(this->buffer_, \\(uint8_t\\*\\)output_buffer, n\\) ==> tins_memcpy(output, this->buffer_, n) /* read_data = std::memcpy */')))
+                                   rules='rule: output_buffer_size ==> n\nrule: read_data\\(this->buffer_, \\(uint8_t\\*\\)output_buffer, n\\) ==> tins_memcpy2(output, this->buffer_, n) /* read_data = std::memcpy */')))
     for t, bits, con in (('uint8_t', 8, 'IMS_READ_U8_CONTRACT'), ('uint16_t', 16, 'IMS_READ_N_CONTRACT(2)'), ('uint32_t', 32, 'IMS_READ_N_CONTRACT(4)'), ('uint64_t', 64, 'IMS_READ_N_CONTRACT(8)')):
         U.append(('ims_read_' + t, unit('ims_read_' + t, 'IMS_read_' + t, H, 'read', 'T read()', '%s IMS_read_%s(IMS* this)' % (t, t), con,
                                         'IMS* s; IMS_read_%s(s);' % t, uses=('read_obj',),
